@@ -140,7 +140,7 @@ SPECS.update({
                  "that goroutine's input; binary built with -race, reports parsed from GORACE logs; seeded yields/sleeps at four verif points; "
                  "non-trivial when the result object came from another goroutine; distinct classes = (G, GOMAXPROCS, mode, max buffer) configurations; "
                  "interleaving diversity reported as distinct 4-grams of the boundary event order"),
-        "explanation": "evidence counters: cross_goroutine_handovers, result_object_reuses, distinct_boundary_4grams, per-site hook hits, race_reports",
+        "explanation": "evidence counters: cross_goroutine_handovers, result_object_reuses, distinct_boundary_4grams, per-site hook hits, race_reports; every fourth goroutine also feeds messages whose outer level is valid and whose nested elements are corrupt after some well-formed ones (nested access fails, result closed as usual)",
         "assumptions": TRUST_LAZY + ["the race detector only sees races on executions that happened"],
     },
 })
@@ -216,7 +216,7 @@ SPECS.update({
         "rule": ("one case = one message value of one generated type (unit x flavour {gogo, gv1, gv2} x generator options) built through reflection on fresh structs; "
                  "Size(), Marshal() and MarshalTo(buffer of exactly Size() bytes, canary-framed, filled 0xAA then 0x55) must agree: equal lengths, every byte written, no overrun, "
                  "no truncated copy (encoder hook), no panic; non-trivial when >=1 field is populated; distinct by (package, message, field + boundary class | random field-number set)"),
-        "explanation": "values: the empty message, every field alone at each boundary value / container shape (lists 1,2,127,128; maps 0,1,3; empty and full nested messages in fields, lists, maps, oneofs), then seeded random combinations; required fields always set; violations are shrunk field by field and signed by (flavour, failure kind, populated field shapes); every boundary case and every 4th random case is evaluated a second time in the 'empty but allocated' Go representation (nil lists, maps and presence-less bytes rewritten to empty non-nil values by Go reflection: same contents)",
+        "explanation": "values: the empty message, every field alone at each boundary value / container shape (lists 1,2,127,128; maps 0,1,3; empty and full nested messages in fields, lists, maps, oneofs), then seeded random combinations; required fields always set; violations are shrunk field by field and signed by (flavour, failure kind, populated field shapes); every boundary case and every 4th random case is evaluated a second time in the 'empty but allocated' Go representation (nil lists, maps and presence-less bytes rewritten to empty non-nil values by Go reflection: same contents); Google V2 values holding an empty element in a repeated message field get a third pass with that element as a nil pointer",
         "assumptions": TRUST_GEN,
     },
     "C05": {
@@ -250,7 +250,7 @@ SPECS.update({
         "rule": ("one case = a message encoding with 1-3 unknown fields per message level (all four wire types; numbers next to declared ones, >=2^26, near 2^29-1; payloads 0..70000 bytes; first/middle/last positions) "
                  "fed to the generated Unmarshal then Marshal: the reference parse of the output must hold byte-identical unknown fields per message (top level and nested) and Size() must equal the output length; "
                  "distinct by (package, message, variant family, field/case)"),
-        "explanation": "gv2 keeps unknown bytes in unknownFields, gogo/gv1 in XXX_unrecognized; both are compared through the reference parse, never through the struct",
+        "explanation": "gv2 keeps unknown bytes in unknownFields, gogo/gv1 in XXX_unrecognized; both are compared through the reference parse, never through the struct; family unknown-padded writes the key, length prefix and varint value of unknown fields with redundant continuation bytes (valid wire data no encoder emits); differences inside runtime-owned google.protobuf.* sub-messages are not judged (protobuf-go re-encodes unknown keys itself)",
         "assumptions": TRUST_GEN,
     },
 })
@@ -327,7 +327,7 @@ SPECS.update({
                  "and (through reflection) to the generated struct; the bytes must equal the generated Marshal of a fresh struct built from the model (for maps with >=2 entries: equal length and equal reference parse); a step whose fresh copy "
                  "fails too is a content defect owned by C04/C05/C17 and is not counted; non-trivial when >=1 mutation precedes the marshal; distinct by (flavour, message, last op bigram). "
                  "concurrent: G in {2,8,16,64} goroutines x GOMAXPROCS {1,2,16} call Size/Marshal/csproto.Marshal/runtime Marshal on one quiescent struct under -race; every result must equal the pre-computed bytes"),
-        "explanation": "violations are signed by (flavour, failing call, failure kind, history cause: whether csproto or the owning runtime computed a size before, and whether a mutation followed); history steps include Clone (the model continues from what the clone holds) and 'alloc-empty-containers' (representation change only); message types with declared extensions are included with their extensions unset",
+        "explanation": "violations are signed by (flavour, failing call, failure kind, history cause: whether csproto or the owning runtime computed a size before, and whether a mutation followed); history steps include Clone (the model continues from what the clone holds) and 'alloc-empty-containers' (representation change only); message types with declared extensions are included with their extensions unset; MarshalTo steps write into a destination pre-filled with non-zero bytes",
         "assumptions": TRUST_GEN + ["message types with declared extensions are skipped here (content-level known findings dominate them)", "the race detector only sees races on executions that happened"],
     },
 })
@@ -461,7 +461,7 @@ SPECS.update({
                  "MsgType equals the flavour's class; csproto.Equal across runtimes is false; unsupported values (nil, int, string, struct, pointer to non-message, typed nil, slice) give the documented error/zero result without panic; "
                  "distinct by (flavour, plain/fast, message, value class). concurrent: rounds in which G in {2,16,64} goroutines (GOMAXPROCS 1,2,16) call MsgType/Clone/MarshalText on values of types whose classification was just "
                  "evicted (verif hook), with seeded yields between cache miss and store, under -race; every goroutine must observe the correct class; evidence counts rounds with >=2 goroutines inside the miss window"),
-        "explanation": "every case ends with Size/Marshal after lock-step in-place mutations of the message that was sized and marshaled before (oracle: the owning runtime's Marshal of a fresh copy of the current contents); gogo well-known types are exercised as fields of plain gogo types",
+        "explanation": "every case ends with Size/Marshal after lock-step in-place mutations of the message that was sized and marshaled before (oracle: the owning runtime's Marshal of a fresh copy of the current contents); gogo well-known types are exercised as fields of plain gogo types; decoding (value bytes, nil, empty payload; Unmarshal and GrpcCodec) into a message that already holds other content must match the owning runtime's Unmarshal; plain types with an unset required field must be accepted/refused like the owning runtime does",
         "assumptions": TRUST_GEN + ["the owning runtime's API is the stated oracle for Clone/Equal/Reset/MarshalText", "the race detector only sees races on executions that happened"],
     },
 })
@@ -477,7 +477,7 @@ SPECS.update({
                  "with the runtime's own HasExtension/GetExtension, ExtensionFieldNumber with the declared number, RangeExtensions with the set of set numbers, and a refwire walk of csproto.Marshal output with the set numbers "
                  "(cleared extensions must be gone); gogo messages are paired with google descriptors and vice versa: Has must be false, Get/Set must fail, the message must be unchanged (ClearExtension's documented panic is tolerated); "
                  "non-trivial when a sequence contains a Set and a Clear; distinct by (flavour, unit, op bigram) and (message flavour, descriptor flavour)"),
-        "explanation": "values are built in each runtime's own convention (pointer-to-scalar for Gogo/Google V1, plain values for V2) from dynamic values; Google V1 and V2 descriptors share one Go type and are not a mismatch pair",
+        "explanation": "values are built in each runtime's own convention (pointer-to-scalar for Gogo/Google V1, plain values for V2) from dynamic values; Google V1 and V2 descriptors share one Go type and are not a mismatch pair; plain and fast packages (for fast types csproto.Marshal runs the generated extension code); unit p2extdefault declares extensions with explicit defaults",
         "assumptions": TRUST_GEN + ["the owning runtime's extension API is the stated oracle"],
     },
 })
@@ -492,7 +492,7 @@ SPECS.update({
                  "equal as a JSON tree to the owning runtime's own encoder given the same options (protojson / golang jsonpb / gogo jsonpb called directly), be restored to an equal message by JSONUnmarshaler and by the owning runtime's decoder; "
                  "indentation must be whole copies of the indent string; enum fields are numbers iff requested; zero-valued implicit fields appear iff requested; JSON with an injected unknown key is accepted iff allowed; JSON lacking a required key "
                  "is accepted iff allowPartial (Google V2, as documented); nil -> (nil, nil), unmarshal into nil -> error; distinct by (flavour, message, option tuple, value class)"),
-        "explanation": "values with NaN or -0.0 are excluded (JSON cannot carry the distinction); comparisons are on parsed JSON trees, never on raw text; well-known types are additionally run as root messages (Value of all six kinds incl. null, Struct, ListValue, Timestamp, Duration, wrappers, FieldMask, Empty) for the Google V2 and Gogo runtimes, restricted to values the owning runtime's own JSON codec round-trips",
+        "explanation": "values with NaN or -0.0 are excluded (JSON cannot carry the distinction); comparisons are on parsed JSON trees, never on raw text; well-known types are additionally run as root messages (Value of all six kinds incl. null, Struct, ListValue, Timestamp, Duration, wrappers, FieldMask, Empty) for the Google V2 and Gogo runtimes, restricted to values the owning runtime's own JSON codec round-trips; typed nil pointers of 13 well-known types in the nil clause; gogo messages with an enum field imported from another gogo package are built by Go reflection (the bridge cannot reflect on them) and compared with gogo's jsonpb",
         "assumptions": TRUST_GEN + ["the owning runtime's JSON implementation is the stated oracle for option effects"],
     },
 })
@@ -507,7 +507,7 @@ SPECS.update({
                  "B = csproto.Marshal(m), the write cursor (verif accessor) must advance by exactly that; Decoder.DecodeNested must consume exactly the field (reference walker extent), yield an equal message / the payload, return a failing nested "
                  "marshaler's / unmarshaler's error unchanged without moving the cursor, and reject a declared length beyond the buffer without invoking the nested decoder (stub counts invocations); "
                  "distinct by (nested kind, position, payload size class)"),
-        "explanation": "failing stubs are injected for every 7th stub case (MarshalTo error, Marshal error, Unmarshal error)",
+        "explanation": "failing stubs are injected for every 7th stub case (MarshalTo error, Marshal error, Unmarshal error); every field is also decoded into a value of an unsupported type (must be refused, also for an empty payload) and, for generated/plain types, into a destination that already holds another value",
         "assumptions": TRUST_GEN + TRUST_WIRE[2:],
     },
 })
